@@ -763,17 +763,20 @@ func hasDeadJump(p *irjs.Node) bool {
 		case "case", "catch":
 			list(n.Kids[1:], dead)
 		case "if":
-			d := dead || constantExpr(n.Kids[0])
-			stmt(n.Kids[1], d)
+			t, known := constantTruth(n.Kids[0])
+			isConst := constantExpr(n.Kids[0])
+			stmt(n.Kids[1], dead || isConst && (!known || !t))
 			if len(n.Kids) > 2 {
-				stmt(n.Kids[2], d)
+				stmt(n.Kids[2], dead || isConst && (!known || t))
 			}
 		case "while":
-			stmt(n.Kids[1], dead || constantExpr(n.Kids[0]))
+			t, known := constantTruth(n.Kids[0])
+			stmt(n.Kids[1], dead || constantExpr(n.Kids[0]) && (!known || !t))
 		case "dowhile":
 			stmt(n.Kids[0], dead)
 		case "for":
-			stmt(n.Kids[3], dead || !n.Kids[1].IsNone() && constantExpr(n.Kids[1]))
+			t, known := constantTruth(n.Kids[1])
+			stmt(n.Kids[3], dead || !n.Kids[1].IsNone() && constantExpr(n.Kids[1]) && (!known || !t))
 		case "forin", "forof":
 			stmt(n.Kids[2], dead)
 		case "label", "with":
@@ -796,6 +799,24 @@ func hasDeadJump(p *irjs.Node) bool {
 		stmt(p, false)
 	}
 	return found
+}
+
+// constantTruth: the truth value of a literal (known=false for anything else).
+func constantTruth(e *irjs.Node) (truth, known bool) {
+	if e == nil || !e.Atom {
+		return false, false
+	}
+	switch {
+	case e.Op == "true":
+		return true, true
+	case e.Op == "false" || e.Op == "null":
+		return false, true
+	case e.IsNum():
+		return e.Op != "0", true
+	case e.IsStr():
+		return e.Op != `""`, true
+	}
+	return false, false
 }
 
 // constantExpr: built from literals and operators only (the compiler folds it).
